@@ -147,7 +147,7 @@ def parse_items(src, masked=None, lo=0, hi=None):
                     i += 1
                 if masked[i] == '(':
                     i = match_close(masked, i) + 1
-            elif w in ('unsafe', 'async', 'default'):
+            elif w in ('unsafe', 'async', 'default', 'open', 'closed', 'spec', 'proof', 'exec', 'uninterp', 'broadcast', 'axiom'):
                 i = m.end()
             elif w == 'const' and re.match(r'const\s+(fn|unsafe)\b', masked[i:i + 30]):
                 i = m.end()
